@@ -99,6 +99,7 @@ POOL = [
     mk("search_en_relbase", "search", "I saw him on 12 May 2015. two days ago it rained", "en", adl=False, nobase=True),
     mk("search_fr_relbase", "search", "Nous sommes le 3 mars 2011. Hier il a plu.", "fr", adl=False, nobase=True),
     mk("search_hu", "search", "2015. május 12. volt", "hu", adl=True),
+    mk("search_ru_range_b", "search", "Работал с 3 марта по 5 мая 2020", "ru", adl=False),
 ]
 for _i, _c in enumerate(POOL):
     _c["id"] = _i
@@ -126,7 +127,8 @@ PAIRS += [("search_fr_inst", "search_en"), ("en_dmy_inst", "fr_num"), ("search_f
           ("search_hu", "search_en"), ("search_fr_relbase", "fr_num")]
 # cold schedules (fresh interpreter per schedule, A's call is the first use of everything it touches): A, B
 COLD_PAIRS = [("search_en_first", "loc_au"), ("search_fr", "loc_fr_ca"), ("loc_au", "search_en_first"), ("en_num", "loc_au"),
-              ("loc_ca", "loc_au"), ("rel_de", "search_de_words")]
+              ("loc_ca", "loc_au"), ("rel_de", "search_de_words"), ("search_ru_range", "search_ru_range_b"),
+              ("search_ru_range_b", "search_ru_range"), ("search_de_words", "search_hu")]
 COLD_FILES = ("languages/loader.py", "conf.py")     # quick: every line of these; a seeded sample of the others
 
 
@@ -467,16 +469,16 @@ def run_coldsched(ctx, desc):
         return
     rnd = rng(ctx.seed, "C20cold", desc["i"])
     first = sorted(rec["first"], key=lambda t: t[2])
-    must = [k for f, ln, k in first if f in COLD_FILES]
-    rest = [k for f, ln, k in first if f not in COLD_FILES]
+    # every distinct line A executes while NOT holding the library's lock (there another call really overlaps with it), the
+    # loader / settings files, and a seeded sample of the lines executed under the lock (where B can only wait)
+    outside = [k for f, ln, k, held in first if not held]
+    must = [k for f, ln, k, held in first if held and f in COLD_FILES]
+    rest = [k for f, ln, k, held in first if held and f not in COLD_FILES]
+    ctx.count("cold_lines_outside_lock:%s" % na, len(outside)) if desc["slice"] == 0 else None
     if ctx.tier == "quick":
-        if ca["api"] != "search":
-            # a parse call holds the library's lock from its first line to its last: B can only wait; a few schedules show that
-            must = sorted(rnd.sample(must, min(len(must), 10)))
-            rest = sorted(rnd.sample(rest, min(len(rest), 10)))
-        else:
-            rest = sorted(rnd.sample(rest, min(len(rest), 60)))
-    ks = sorted(must + rest)[desc["slice"]::desc["nslices"]]
+        must = sorted(rnd.sample(must, min(len(must), 10)))
+        rest = sorted(rnd.sample(rest, min(len(rest), 14)))
+    ks = sorted(set(outside + must + rest))[desc["slice"]::desc["nslices"]]
     ctx.count("cold_sched_lines_in_A:%s" % na, rec["L"]) if desc["slice"] == 0 else None
     for k in ks:
         try:
